@@ -368,6 +368,12 @@ class Gen:
         self.add(mk_struct("KfQuote", "named", [mk_field("x", ("leaf", "i32"), rename='a"b'), mk_field("y", ("leaf", "bool"), rename="back\\slash")],
                            flatten_ok=False, no_ref=True))
         self.add(mk_struct("KfReserved", "unit", [], rename="break", flatten_ok=False, no_ref=True))
+        # one file shared by a generic type and a type whose name extends the generic's name with a character below `<`
+        self.add(mk_struct("Point", "named", [mk_field("x", ("param", 0)), mk_field("y", ("param", 0))], params=[("T", None)],
+                           export_to="geo/geometry.ts", flatten_ok=False, no_ref=True))
+        self.add(mk_struct("Point2", "named", [mk_field("x", ("leaf", "f64")), mk_field("y", ("leaf", "f64"))],
+                           export_to="geo/geometry.ts", flatten_ok=False, no_ref=True))
+        self.add(mk_struct("Origin", "unit", [], export_to="geo/geometry.ts", flatten_ok=False, no_ref=True))
         self.add(mk_struct("KfOpt", "named", [mk_field("x", ("param", 0))], params=[("T", None)], optional_fields=True,
                            flatten_ok=False, no_ref=True))
 
@@ -639,6 +645,9 @@ fn v<T: Serialize>(ix: usize, k: usize, x: T) {
 fn x<T: TS + 'static + ?Sized>(ix: usize, dir: &str) {
     let r = catch_unwind(AssertUnwindSafe(|| T::export_all_to(format!("{dir}/{ix}"))));
     println!("X\u{2}{}\u{2}{}", ix, match r { Ok(Ok(())) => "OK".to_owned(), Ok(Err(e)) => format!("ERR {e:?}").replace('\n', " "), Err(_) => "PANIC".to_owned() });
+}
+fn xa<T: TS + 'static + ?Sized>(dir: &str) -> String {
+    match catch_unwind(AssertUnwindSafe(|| T::export_all_to(dir))) { Ok(Ok(())) => "OK".to_owned(), Ok(Err(e)) => format!("ERR {e:?}").replace('\n', " "), Err(_) => "PANIC".to_owned() }
 }
 fn d<T: for<'a> Deserialize<'a> + Serialize>(ix: usize, k: usize, json: &str) {
     let s = match serde_json::from_str::<T>(json) {
